@@ -30,7 +30,7 @@ RULE = ('a seeded history (files at any depth, multi-sector directories through 
         'modification vector)')
 BUDGET = {'quick': 40, 'thorough': 900}
 PROBES = ['modifications_checked', 'doomed_checked', 'target_hard_linked', 'target_has_joliet_name', 'target_has_udf_name', 'target_in_multi_sector_dir',
-          'target_deep', 'new_length_zero', 'new_length_exact_sectors', 'repeated_modification', 'rr_target', 'xa_image', 'object_reused_after_other_image']
+          'target_deep', 'new_length_zero', 'new_length_exact_sectors', 'repeated_modification', 'rr_target', 'xa_image', 'object_reused_after_other_image', 'boot_file_with_table_refused', 'target_is_boot_file']
 ASSUMPTIONS = ['volume descriptor sectors may be rewritten as a whole; only their space-size and modification-date bytes may differ',
                'the allowed set is computed by the independent decoders on the image before the call']
 SHRINK_LIST_KEYS = ['ops', 'mods']
@@ -38,7 +38,7 @@ CHUNK = 10
 
 PROFILE = H.Profile('c17', nops=(3, 16), final_restart=False,
                     weights={'add_fp': 36, 'add_dir': 14, 'add_link': 10, 'rm_file': 3, 'rm_link': 3, 'restart': 1, 'dup_pvd': 0.3, 'add_isohybrid': 0,
-                             'add_eltorito': 1, 'add_symlink': 2, 'hide': 1, 'mass_dirs': 0.6, 'mass_files': 1.2},
+                             'add_eltorito': 3, 'add_boot_file': 2, 'add_symlink': 2, 'hide': 1, 'mass_dirs': 0.6, 'mass_files': 1.2},
                     sizes=(1, 7, 64, 100, 2047, 2048, 2049, 4096, 4097, 6143, 10000, 20480))
 
 
@@ -52,8 +52,7 @@ def generate(seed, tier='quick'):
     mods = []
     nb = 500000
     for k in range(r.randint(1, 3)):
-        files = [(p, n) for p, n in model.iter_ns('iso') if n.kind == 'file' and isinstance(n.blob, int) and not n.noinode
-                 and n.blob not in model.eltorito_blobs()]
+        files = [(p, n) for p, n in model.iter_ns('iso') if n.kind == 'file' and isinstance(n.blob, int) and not n.noinode]
         dirs = [p for p, n in model.iter_ns('iso') if n.kind == 'dir']
         if not files:
             break
@@ -62,6 +61,8 @@ def generate(seed, tier='quick'):
         sectors = (old + 2047) // 2048
         kind = r.choice(('valid', 'valid', 'valid', 'grow-sector', 'shrink-sector', 'directory', 'readonly'))
         nb += 1
+        if kind == 'valid' and n.blob in model.eltorito_blobs() and model.blobs[n.blob].bit:
+            kind = 'boot-info-table'      # the table inside the file cannot be remade in place: refused
         if kind == 'valid':
             if sectors == 0:
                 newlen = 0
@@ -80,6 +81,8 @@ def generate(seed, tier='quick'):
             if not dirs:
                 continue
             op = {'op': 'modify', 'iso': r.choice(dirs), 'blob': nb, 'len': 2048, 'kind': kind, 'expect': 'refuse'}
+        elif kind == 'boot-info-table':
+            op = {'op': 'modify', 'iso': p, 'blob': nb, 'len': old, 'kind': kind, 'expect': 'refuse'}
         else:
             op = {'op': 'modify', 'iso': p, 'blob': nb, 'len': old, 'kind': kind, 'expect': 'refuse'}
         mods.append(op)
@@ -235,10 +238,15 @@ def run_mods(ctx, plan, d, disk, h, w):
         doomed = mod.get('expect') == 'refuse'
         if not doomed and (node.kind != 'file' or not isinstance(node.blob, int)):
             continue
+        has_table = node.kind == 'file' and isinstance(node.blob, int) and node.blob in model.eltorito_blobs() and model.blobs[node.blob].bit
         if not doomed:
             old = model.blobs[node.blob].length
-            if (old + 2047) // 2048 != (mod['len'] + 2047) // 2048:
+            if (old + 2047) // 2048 != (mod['len'] + 2047) // 2048 or has_table:
                 continue
+        elif mod['kind'] == 'boot-info-table':
+            if not has_table or (model.blobs[node.blob].length + 2047) // 2048 != (mod['len'] + 2047) // 2048:
+                continue
+            ctx.probes['boot_file_with_table_refused'] += 1
         elif mod['kind'] in ('grow-sector', 'shrink-sector', 'readonly'):
             if node.kind != 'file' or not isinstance(node.blob, int):
                 continue
@@ -293,6 +301,8 @@ def run_mods(ctx, plan, d, disk, h, w):
         if nmods > 1:
             ctx.probes['repeated_modification'] += 1
         ctx.probes['modifications_checked'] += 1
+        if node.blob in model.eltorito_blobs():
+            ctx.probes['target_is_boot_file'] += 1
         names = model.names_of_blob(node.blob)
         if len(names) > 1:
             ctx.probes['target_hard_linked'] += 1
